@@ -701,6 +701,13 @@ func (fc *FnCtx) bvToInt(t string, ty types.Type) string {
 		fc.addAxiom(fn, fmt.Sprintf("(assert (forall ((x (_ BitVec %d))) (! (and (<= (- %s) (%s x)) (<= (%s x) %s)) :pattern ((%s x)))))", w, h.String(), fn, fn, maxS.String(), fn))
 		fc.addAxiom(fn, fmt.Sprintf("(assert (forall ((x (_ BitVec %d))) (! (=> (bvslt x %s) (= (%s (bvadd x (_ bv1 %d))) (+ (%s x) 1))) :pattern ((%s (bvadd x (_ bv1 %d)))))))", w, bvLit(maxS, w), fn, w, fn, fn, w))
 		fc.addAxiom(fn, fmt.Sprintf("(assert (forall ((x (_ BitVec %d))) (! (=> (bvsgt x %s) (= (%s (bvsub x (_ bv1 %d))) (- (%s x) 1))) :pattern ((%s (bvsub x (_ bv1 %d)))))))", w, bvLit(new(big.Int).Neg(h), w), fn, w, fn, fn, w))
+		if fc.contract != nil && fc.contract.Opts["int2bv-inverse"] != "" {
+			// `opt int2bv-inverse`: converting the exact value of a signed machine integer back to its width gives the
+			// integer itself (a theorem of two's complement arithmetic that the solvers do not find through the
+			// uninterpreted value function; stated as an instance schema, listed as an arithmetic lemma)
+			fc.externsUsed[fmt.Sprintf("arithmetic lemma (trusted): int2bv_%d(value of a signed %d-bit integer x) == x", w, w)] = true
+			fc.addAxiom(fn, fmt.Sprintf("(assert (forall ((x (_ BitVec %d))) (! (= ((_ int2bv %d) (%s x)) x) :pattern ((%s x)))))", w, w, fn, fn))
+		}
 	}
 	return app(fn, t)
 }
